@@ -1146,8 +1146,7 @@ class Translator:
         if st == "done": return True
         if st == "failed": return False
         if st in ("busy", "pending"):
-            ft.degraded = True       # unavailable only because of the current emission order
-            return False
+            return False             # genuine cycle through the function being translated
         try:
             ok = self.emit(item, soft=True)
         except Deferred:
